@@ -10,6 +10,8 @@
 (*   hins     the byte strings the code under test fed to SHA-256, as       *)
 (*            recorded at admin.ledger_utils.sha256 (small images only)     *)
 (*   expected the oracle digest, Seq(0..255)                                *)
+(*   tlen, tthr, tside  the size of the file as text, and the threshold it   *)
+(*            was built to lie just "below" / "above" ("none": not scaled)  *)
 (*   total    the size of the image (sum of the generator's area lengths)   *)
 (*   hinlens  the number of bytes each hashing call fed to SHA-256 (every   *)
 (*            image, whatever its size)                                     *)
@@ -51,6 +53,8 @@ StructClauses == (IF ~T.small THEN <<>> ELSE <<
     <<"Machinery:FileIsImage", ParseOk(T.file) => HashInputOf(T.file) = ConcatSorted(AreaSet)>>,
     <<"Machinery:OracleInput", T.oin = ConcatSorted(AreaSet)>>,
     <<"HashInputOk",           \A i \in DOMAIN T.hins : HashInputOkP(AreaSet, T.hins[i])>> >>) \o <<
+    <<"Machinery:TextSide",    /\ (T.tside = "below") => (T.tlen <= T.tthr /\ T.tlen + 1100 > T.tthr)
+                               /\ (T.tside = "above") => (T.tlen > T.tthr /\ T.tlen < T.tthr + 1100)>>,
     <<"HashedLength",          \A i \in DOMAIN T.hinlens : HashedLengthP(T.total, T.hinlens[i])>> >>
 
 \* is the library the parser the model says it is?  (drift, not a verdict)
